@@ -7,7 +7,7 @@
 From Coq Require Import ZArith List Bool Lia.
 Import ListNotations.
 Require Import SV.Common SV.C11.Base SV.C11.Utf8 SV.C11.Gen_events SV.C11.Envelope SV.C11.Tick SV.C11.Notify.
-Require Import SV.C11.Capture SV.C11.Listeners SV.C11.CaptureProofs SV.C11.ListenersProofs.
+Require Import SV.C11.Capture SV.C11.Listeners SV.C11.Register SV.C11.CaptureProofs SV.C11.ListenersProofs SV.C11.RegisterProofs.
 Require Import SV.C11.Routing SV.C11.Utf8Proofs SV.C11.EnvelopeProofs SV.C11.TickProofs SV.C11.NotifyProofs SV.C11.RoutingProofs.
 Open Scope Z_scope.
 
@@ -355,3 +355,37 @@ Theorem c11_fifo_order : forall n l, forallb quiet l = true ->
             sent_all (l_log (lrun n l)) ++ l_buf (lrun n l) = iota k.
 Proof. exact fifo_order. Qed.
 Print Assumptions c11_fifo_order.
+
+(* ---------------------------------------------------------------- run-time registration, capture sections, flush at reap *)
+
+(* an event type registered with events.register() is named from then on ... *)
+Theorem c11_register_visible : forall t n c, xlookup t c = None -> xlookup (register t n c) c = Some n.
+Proof. exact register_visible. Qed.
+Print Assumptions c11_register_visible.
+
+(* ... nobody else's name changes ... *)
+Theorem c11_register_frame : forall t n c c', (forall e, In e t -> fst e <> n) -> c' <> c ->
+  xlookup (register t n c) c' = xlookup t c'.
+Proof. exact register_frame. Qed.
+Print Assumptions c11_register_frame.
+
+(* ... however many names were looked up (envelopes built) before the registration *)
+Theorem c11_register_any_time : forall before n c, xlookup initial_table c = None ->
+  (forall o, In o before -> exists c0, o = XLookup c0) ->
+  nth (length before) (xrun initial_table (before ++ [XRegister n c; XLookup c])) None = Some n.
+Proof. exact register_any_time. Qed.
+Print Assumptions c11_register_any_time.
+
+(* each PROCESS_COMMUNICATION event of a run carries the data of its own BEGIN..END section only *)
+Theorem c11_capture_sections : forall m blocks, blocks_run m [] blocks = map (bound_writes m) blocks.
+Proof. exact blocks_independent. Qed.
+Print Assumptions c11_capture_sections.
+
+(* finish(): output held back is announced first, with the pid the child had; then the state changes *)
+Theorem c11_finish_flush_order : forall p held es tq ee now,
+  exists out,
+    finish_with_output p held es tq ee now
+    = map (fun h => (fst h, ALog (p_name p) (p_group p) (p_pid p) (DBytes (snd h)))) held ++ out /\
+    (forall c a, In (c, a) out -> exists from bo, a = AState (p_name p) (p_group p) from (extra_values c bo ee (p_pid p))).
+Proof. exact finish_flush_order. Qed.
+Print Assumptions c11_finish_flush_order.
